@@ -20,7 +20,7 @@ const maxEventsTotal = 1500000
 
 var recvTotal int64
 
-var recvCount, recvOverflow sync.Map
+var recvCount, recvOverflow, recvAdmitted, recvRefused sync.Map
 
 func setupRecvTrace(path string, every int) {
 	if path == "" {
@@ -32,19 +32,29 @@ func setupRecvTrace(path string, every int) {
 	k := int64(every)
 	// a connection that produces more than maxEventsPerConn events (megabytes read through a 7-byte buffer) is dropped
 	// from the sample as a whole and stops being traced: the campaign's timing must not depend on the tracer
+	// a connection is admitted to the sample by its first library event (ConnNew) or not at all: a connection must never be
+	// traced from the middle (its negotiated extension and role come with ConnNew)
 	websocket.VerifKeepConn = func(conn int64) bool {
 		if conn%k != 0 {
 			return false
 		}
-		if atomic.LoadInt64(&recvTotal) > maxEventsTotal {
-			if _, known := recvCount.Load(conn); !known {
+		if _, ok := recvAdmitted.Load(conn); !ok {
+			if _, no := recvRefused.Load(conn); no {
 				return false
 			}
+			if atomic.LoadInt64(&recvTotal) > maxEventsTotal {
+				recvRefused.Store(conn, true)
+				return false
+			}
+			recvAdmitted.Store(conn, true)
 		}
 		_, over := recvOverflow.Load(conn)
 		return !over
 	}
 	recvTracer = &ws.Tracer{Keep: func(e websocket.VerifEvent) bool {
+		if _, ok := recvAdmitted.Load(e.Conn); !ok {
+			return false // events the harness logs for a connection that is not in the sample
+		}
 		atomic.AddInt64(&recvTotal, 1)
 		v, _ := recvCount.LoadOrStore(e.Conn, new(int64))
 		if atomic.AddInt64(v.(*int64), 1) > maxEventsPerConn {
